@@ -328,6 +328,9 @@ pub unsafe trait Pe<'a>: PeObject<'a> + Copy {
 	}
 	/// Reads an array of pod `T` with given length.
 	fn derva_slice<T: Pod>(self, rva: Rva, len: usize) -> Result<&'a [T]> {
+		if rva == 0 {
+			return Err(Error::Null);
+		}
 		let min_size_of = mem::size_of::<T>().checked_mul(len).ok_or(Error::Overflow)?;
 		let align = if cfg!(feature = "unsafe_alignment") { 1 } else { mem::align_of::<T>() };
 		let bytes = self.slice(rva, min_size_of, align)?;
@@ -413,6 +416,9 @@ pub unsafe trait Pe<'a>: PeObject<'a> + Copy {
 	}
 	/// Reads an array of pod `T` with given length.
 	fn deref_slice<T: Pod>(self, ptr: Ptr<[T]>, len: usize) -> Result<&'a [T]> {
+		if ptr.is_null() {
+			return Err(Error::Null);
+		}
 		let min_size_of = mem::size_of::<T>().checked_mul(len).ok_or(Error::Overflow)?;
 		let align = if cfg!(feature = "unsafe_alignment") { 1 } else { mem::align_of::<T>() };
 		let bytes = self.read(ptr.into(), min_size_of, align)?;
